@@ -653,3 +653,118 @@ Proof.
       destruct (N.eq_dec (lenN (c_payload c)) (lenN (c_payload c0))) as [E|E]; [exact E|].
       exfalso. apply Fs. exists c, c0. auto 6.
 Qed.
+
+(* ---------- every message cut into chunks by the sender is reassembled, in any arrival order ---------- *)
+Section Split.
+Variable devices : list N.
+Variable m : ovf.
+Variables dev chan : N.
+Variables pseq cseq : N -> N.
+Hypothesis dev_ok : dev_known devices dev = true.
+Hypothesis chan_ok : chan <= 3.
+Hypothesis pseq_ok : forall i, pseq i < 2^32.
+Hypothesis cseq_ok : forall i, cseq i < 2^16.
+Variable k : N.
+Hypothesis k_ok : 1 <= k <= 65535.
+Variable front : list (list N).
+Variable lastp : list N.
+Hypothesis front_ok : Forall (fun q => lenN q = k /\ bytes q) front.
+Hypothesis last_ok : 1 <= lenN lastp <= 65535 /\ bytes lastp.
+Hypothesis count_ok : N.of_nat (length front) <= 65535.
+
+Let fr := map (fun ip => mk_chunk dev chan pseq cseq (fst ip) 0 (snd ip)) (combine (nseq (length front)) front).
+Let z := mk_chunk dev chan pseq cseq (N.of_nat (length front)) 1 lastp.
+Let cs := chunks_of dev chan pseq cseq front lastp.
+
+Lemma cs_eq : cs = fr ++ [z]. Proof. reflexivity. Qed.
+
+Lemma combine_fst {A B} (a : list A) : forall b : list B, length a = length b -> map fst (combine a b) = a.
+Proof. induction a as [|x a IH]; intros [|y b] H; try discriminate; [reflexivity|]. cbn [combine map fst]. f_equal. apply IH. injection H; auto. Qed.
+Lemma combine_snd {A B} (a : list A) : forall b : list B, length a = length b -> map snd (combine a b) = b.
+Proof. induction a as [|x a IH]; intros [|y b] H; try discriminate; [reflexivity|]. cbn [combine map snd]. f_equal. apply IH. injection H; auto. Qed.
+
+Lemma fr_length : length fr = length front.
+Proof. unfold fr. rewrite map_length, combine_length. unfold nseq. rewrite nseq_from_length. lia. Qed.
+Lemma fr_ids : map c_id fr = nseq (length front).
+Proof.
+  unfold fr. rewrite map_map. cbn [mk_chunk c_id]. apply combine_fst. unfold nseq. apply nseq_from_length.
+Qed.
+Lemma fr_payloads : map c_payload fr = front.
+Proof.
+  unfold fr. rewrite map_map. cbn [mk_chunk c_payload]. apply combine_snd. unfold nseq. apply nseq_from_length.
+Qed.
+Lemma fr_in c : In c fr -> exists i p, c = mk_chunk dev chan pseq cseq i 0 p /\ In p front /\ i < N.of_nat (length front).
+Proof.
+  unfold fr. intros H. apply in_map_iff in H. destruct H as ([i p] & <- & H).
+  exists i, p. split; [reflexivity|]. split.
+  - apply in_combine_r in H. exact H.
+  - apply in_combine_l in H. apply nseq_from_In in H. lia.
+Qed.
+
+Lemma cs_dense : map c_id cs = nseq (length cs).
+Proof.
+  rewrite cs_eq, map_app, fr_ids, app_length, fr_length. cbn [map length].
+  replace (length front + 1)%nat with (S (length front)) by lia.
+  unfold nseq. rewrite nseq_from_snoc. cbn [z mk_chunk c_id]. rewrite N.add_0_l. reflexivity.
+Qed.
+
+Lemma cs_oks : Forall (chunk_ok devices) cs.
+Proof.
+  rewrite cs_eq. apply Forall_app. split.
+  - apply Forall_forall. intros c Hc. apply fr_in in Hc. destruct Hc as (i & p & -> & Hp & Hi).
+    rewrite Forall_forall in front_ok. destruct (front_ok p Hp) as [Lp Bp].
+    unfold chunk_ok, mk_chunk. cbn [c_dev c_pseq c_cseq c_chan c_flags c_id c_payload].
+    change (2^16) with 65536. repeat split; auto; lia.
+  - constructor; [|constructor]. destruct last_ok as [Ll Bl].
+    unfold chunk_ok, z, mk_chunk. cbn [c_dev c_pseq c_cseq c_chan c_flags c_id c_payload].
+    change (2^16) with 65536. repeat split; auto; lia.
+Qed.
+
+Lemma cs_SC : SC fr z.
+Proof.
+  unfold SC. split; [reflexivity|]. split.
+  - intros c Hc. apply fr_in in Hc. destruct Hc as (i & p & -> & _). reflexivity.
+  - intros c Hc.
+    assert (K : forall c', In c' fr -> lenN (c_payload c') = k).
+    { intros c' Hc'. apply fr_in in Hc'. destruct Hc' as (i & p & -> & Hp & _).
+      rewrite Forall_forall in front_ok. apply (front_ok p Hp). }
+    rewrite (K c Hc). symmetry. destruct fr as [|c0 t] eqn:E; [destruct Hc|].
+    cbn [app hd]. apply K. left. reflexivity.
+Qed.
+
+Theorem chunks_of_wf : wf_set cs.
+Proof.
+  pose proof cs_dense as D. rewrite cs_eq in D.
+  pose proof (proj1 (SC_iff_EC fr z D) cs_SC) as [E1 E2]. rewrite <- cs_eq in E1, E2, D.
+  unfold wf_set. split; [rewrite cs_eq; destruct fr; discriminate|].
+  assert (U : forall c, In c cs -> c_dev c = dev /\ c_chan c = chan).
+  { intros c Hc. rewrite cs_eq in Hc. apply in_app_or in Hc. destruct Hc as [Hc|[<-|[]]].
+    - apply fr_in in Hc. destruct Hc as (i & p & -> & _). split; reflexivity.
+    - split; reflexivity. }
+  split; [intros c c' Hc Hc'; destruct (U c Hc) as [-> _]; destruct (U c' Hc') as [-> _]; reflexivity|].
+  split; [intros c c' Hc Hc'; destruct (U c Hc) as [_ ->]; destruct (U c' Hc') as [_ ->]; reflexivity|].
+  split; [rewrite D; reflexivity|]. split; assumption.
+Qed.
+
+Theorem chunks_of_concat : concat_by_id cs = concat front ++ lastp.
+Proof.
+  rewrite <- (concat_by_id_sorted cs cs (Permutation_refl cs) cs_dense).
+  rewrite cs_eq, flat_map_app. cbn [flat_map z mk_chunk c_payload]. rewrite app_nil_r. f_equal.
+  rewrite flat_map_concat_map, fr_payloads. reflexivity.
+Qed.
+
+Variable P : Type.
+Variable pwb_decode : list N -> res P.
+Variable sortF : list chunk -> list chunk.
+Hypothesis adm : admissible_sort sortF.
+
+Theorem split_reasm cs' : Permutation cs cs' ->
+  reasm devices m sortF P pwb_decode cs' =
+  match pwb_decode (concat front ++ lastp) with Ok p => Ok p | Err _ => Err E_PAYLOAD | Panic => Panic end.
+Proof.
+  intros Pm. rewrite <- (reasm_perm devices m P pwb_decode sortF sortF cs cs' adm adm cs_oks Pm).
+  unfold reasm. destruct adm as [A B].
+  rewrite (proj2 (reasm_struct_ok_iff devices m sortF A B cs (concat_by_id cs) cs_oks) (conj chunks_of_wf eq_refl)).
+  cbn [bind]. rewrite chunks_of_concat. reflexivity.
+Qed.
+End Split.
